@@ -76,6 +76,9 @@ func c15replay(c *Ctx, lines []string) {
 			c.Emit("dec %s | %s", f[1], c15decLine(unhx(f[1])))
 		case "dec1":
 			c15dec1(c, unhx(f[1]))
+		case "hoc":
+			nk, _ := strconv.Atoi(f[1])
+			c15hoc(c, nk, unhx(f[2]))
 		case "utpdec":
 			v, _ := strconv.Atoi(f[1])
 			c15utpdec(c, uint8(v), unhx(f[2]))
@@ -174,6 +177,14 @@ func runC15(c *Ctx) {
 			enc := portalwire.VerifEncodeContents(items)
 			c.Emit("enc %s | %s", hxl(items), hx(enc))
 			if len(enc) < 70000 {
+				c15hoc(c, len(items), enc)
+				if len(items) > 0 {
+					c15hoc(c, len(items)-1, enc)
+					// N good items followed by a malformed tail / surplus items must discard everything
+					for _, tail := range [][]byte{{0x80}, {0x05, 0x01}, {0x00}, {0x80, 0x80, 0x80, 0x80, 0x80, 0x00}, {0x01}} {
+						c15hoc(c, len(items), append(append([]byte{}, enc...), tail...))
+					}
+				}
 				c.Emit("rt %s | %s", hxl(items), c15decLine(enc))
 				// truncations: a few cut points, always including item boundaries +-1
 				for t := 0; t < 3 && len(enc) > 0; t++ {
@@ -265,6 +276,26 @@ func c15dec1(c *Ctx, b []byte) {
 		return
 	}
 	c.Emit("dec1 %s | ok %s %s", hx(b), hx(content), hx(rem))
+}
+
+// c15hoc drives the consumer of the decoder on the OFFER path: handleOfferedContents with nk awaited keys.
+func c15hoc(c *Ctx, nk int, b []byte) {
+	var items [][]byte
+	var err error
+	if p, msg := guard(func() { items, err = portalwire.VerifFramingOfferedContents(nk, b) }); p {
+		c.Emit("hoc %d %s | panic %s", nk, hx(b), msg)
+		return
+	}
+	c.Count("hoc")
+	if err != nil {
+		c.Emit("hoc %d %s | err", nk, hx(b))
+		return
+	}
+	if items == nil {
+		c.Emit("hoc %d %s | ok none", nk, hx(b))
+		return
+	}
+	c.Emit("hoc %d %s | ok %s", nk, hx(b), hxl(items))
 }
 
 func c15utpdec(c *Ctx, v uint8, b []byte) {
